@@ -12,6 +12,7 @@
 import sys, os, shutil, random
 sys.path.insert(0, os.path.join(os.path.dirname(os.path.abspath(__file__)), '..', 'vlib'))
 from harness import main, Part, pmap, SAN_ENV
+import twoproc
 from p11client import Exec, Died, Hang, mkconf
 import keys_fixed2 as K, mechtable as MT
 
@@ -449,6 +450,8 @@ def run(ctx):
     for be in backends: jobs.append(dict(paths=p, hdr=p['hdr'], scratch=ctx.scratch, what='wrapguard', backend=be, name=f'{be}-wrapguard', rseed=ctx.seed * 17 + 5))
     jobs.sort(key=lambda j: 0 if j.get('kind') == 'RSApriv' else 1)
     for part in pmap(worker, jobs, ctx.nproc): ctx.merge(part)
+    # another PROCESS protects a token key (SENSITIVE / not EXTRACTABLE / WRAP_WITH_TRUSTED) that this process has already read and wrapped (both back-ends): value and wrapping are refused here too
+    for be in ('file', 'db'): ctx.extra.setdefault('two_process_cells', {})[be] = twoproc.stale_view(ctx, be, 'reveal')
     ctx.assumptions += ['set/copy attempts are judged by their effect only: whether a non-canonical CK_BBOOL byte is rejected or normalised is the token\'s choice; "protection removed" (flag, reveal or wrap) is the violation',
                         'the leak scan sees verbatim substrings only (an encoded leak is outside what an output scan can see)',
                         'asymmetric key material is fixed (vlib/keys_fixed2.py): readable instances are read only before the value is declared protected; symmetric values are fresh per object',
